@@ -108,6 +108,8 @@ def hash_fingerprint(prog):
     mixers = []
     if len(wr0) == 1:
         for b, t in wr0[0].calls():
+            if not (t.get("callee") or "").startswith("abyssiniandb::"):
+                continue        # a std trait call (e.g. the `Iterator::next` of a desugared `fold`) is not the mixer
             for x in prog.targets(t, wr0[0])[0]:
                 if x.crate == "abyssiniandb" and x.id not in [m.id for m in mixers]:
                     mixers.append(x)
